@@ -484,6 +484,27 @@ func immutabilityDiffs(c *StepCtx) []Diff {
 			pre[id{b.Name, v.Key, v.VID}] = v
 		}
 	}
+	// a version id that was there before the step must still be there unless this step deleted
+	// exactly that version (the null version may be replaced or removed by unversioned/suspended
+	// writes and deletes)
+	post := map[id]bool{}
+	for _, b := range c.Post.Buckets {
+		for _, v := range b.Versions {
+			post[id{b.Name, v.Key, v.VID}] = true
+		}
+	}
+	for k, p := range pre {
+		if post[k] || k.v == "null" || p.Marker {
+			continue
+		}
+		if c.Op.Kind == "Delete" && c.Op.B == k.b && c.Op.K == k.k && c.Op.V == k.v {
+			continue
+		}
+		if c.Op.Kind == "DeleteBucket" {
+			continue
+		}
+		out = append(out, Diff{Class: "immut", Where: fmt.Sprintf("version %s/%s@%s after %s.disappeared", k.b, k.k, k.v, c.Op.Kind), Model: "still addressable", Impl: "gone"})
+	}
 	for _, b := range c.Post.Buckets {
 		mb := c.M.Buckets[b.Name]
 		for _, v := range b.Versions {
